@@ -1,8 +1,8 @@
 package props
 
 import (
-	"errors"
 	"context"
+	"errors"
 	"fmt"
 	"os"
 	"runtime"
@@ -19,11 +19,11 @@ import (
 // C20 - no goroutine outlives a closed connection.
 
 type c20Desc struct {
-	Role   Role     `json:"role"`
-	Deflate bool    `json:"deflate,omitempty"`
-	Ops    []string `json:"ops"`
-	Ending string   `json:"ending"`
-	Seed   uint64   `json:"seed"`
+	Role    Role     `json:"role"`
+	Deflate bool     `json:"deflate,omitempty"`
+	Ops     []string `json:"ops"`
+	Ending  string   `json:"ending"`
+	Seed    uint64   `json:"seed"`
 }
 
 var c20Ops = []string{"read", "write", "writer", "ping", "closeread", "netconn-timers", "abandon-reader", "abandon-writer", "peer-ping", "read-cancelled-later"}
